@@ -26,6 +26,7 @@ import (
 	"path/filepath"
 	"sort"
 	"strconv"
+	"strings"
 	"sync"
 	"testing"
 
@@ -75,6 +76,7 @@ type Run struct {
 	knownEx  map[string]any
 	extra    map[string]any
 	violN    int
+	knownMsg map[string]string
 }
 
 // Begin opens the unit. Call Flush (usually deferred) at the end.
@@ -180,8 +182,30 @@ func (r *Run) Extra(k string, v any) {
 
 // IsKnown tells whether a signature is a listed known finding.
 func (r *Run) IsKnown(sig string) bool {
-	_, ok := r.known[sig]
-	return ok
+	if os.Getenv("VERIF_COLLECT") != "" {
+		// development aid: tolerate everything and list the signatures met
+		r.mu.Lock()
+		if _, ok := r.known[sig]; !ok {
+			r.known[sig] = "(collected)"
+		}
+		r.mu.Unlock()
+		return true
+	}
+	return r.knownKey(sig) != ""
+}
+
+// knownKey returns the listed signature matching sig ("" if none). A listed signature ending in
+// '*' matches every signature with that prefix (one root cause, several observable fields).
+func (r *Run) knownKey(sig string) string {
+	if _, ok := r.known[sig]; ok {
+		return sig
+	}
+	for k := range r.known {
+		if strings.HasSuffix(k, "*") && strings.HasPrefix(sig, k[:len(k)-1]) {
+			return k
+		}
+	}
+	return ""
 }
 
 // Violation reports a violation. It returns true when the signature is a listed
@@ -190,10 +214,16 @@ func (r *Run) IsKnown(sig string) bool {
 func (r *Run) Violation(v *Viol, replayCase any) bool {
 	r.mu.Lock()
 	defer r.mu.Unlock()
-	if _, ok := r.known[v.Sig]; ok {
-		r.knownHit[v.Sig]++
-		if _, have := r.knownEx[v.Sig]; !have {
-			r.knownEx[v.Sig] = replayCase
+	if key := r.knownKey(v.Sig); key != "" {
+		r.knownHit[key]++
+		if r.knownMsg == nil {
+			r.knownMsg = map[string]string{}
+		}
+		if _, have := r.knownMsg[key]; !have {
+			r.knownMsg[key] = v.Msg
+		}
+		if _, have := r.knownEx[key]; !have {
+			r.knownEx[key] = replayCase
 		}
 		return true
 	}
@@ -224,7 +254,7 @@ func (r *Run) Flush() {
 		"property": r.Prop, "unit": r.Unit, "shard": r.shard,
 		"evaluations": r.evals, "nontrivial": r.nontriv, "distinct_nontrivial": len(hs), "skipped": r.skipped,
 		"classes": r.classes, "samples": r.samples, "known_hits": r.knownHit, "known_examples": r.knownEx,
-		"known_what": r.known, "extra": r.extra, "violations": r.violN,
+		"known_what": r.known, "known_msgs": r.knownMsg, "extra": r.extra, "violations": r.violN,
 	}
 	b, _ := json.Marshal(doc)
 	_ = os.WriteFile(filepath.Join(r.out, fmt.Sprintf("stats-%s-%s.json", r.Unit, r.shard)), b, 0o644)
